@@ -49,9 +49,17 @@ DupWith(ixd, r1, r2) ==
 DupExists(content, tab, row) ==
     \E r \in content : \E i \in 1..Len(tab.idx) : DupWith(tab.idx[i], r, row)
 
+\* no two rows with the same key / the same non-empty unique value
+\* (stated through cardinalities: equivalent to the pairwise statement, linear to evaluate)
 UniqueOK(content, tab) ==
-    \A r1, r2 \in content : r1 # r2 =>
-        \A i \in 1..Len(tab.idx) : ~DupWith(tab.idx[i], r1, r2)
+    \A i \in 1..Len(tab.idx) :
+        LET ixd == tab.idx[i] IN
+        IF ixd.mode = "k"
+        THEN Cardinality({ IxKey(ixd, r) : r \in content }) = Cardinality(content)
+        ELSE IF ixd.mode = "u"
+        THEN LET ne == { r \in content : ~AllZero(IxKey(ixd, r)) } IN
+             Cardinality({ IxKey(ixd, r) : r \in ne }) = Cardinality(ne)
+        ELSE TRUE
 
 AllUnique(db, S) == \A i \in 1..Len(S) : UniqueOK(db[S[i].name], S[i])
 
